@@ -52,6 +52,8 @@ class Inconclusive(Exception):
 
 
 def jsonable(x: Any) -> Any:
+    if isinstance(x, int) and not isinstance(x, bool) and abs(x) >= 1 << 1000:
+        return {'__bigint_hex__': hex(x)}       # beyond CPython's int->str digit limit; hex has no limit
     if x is None or isinstance(x, (bool, int, float, str)):
         return x
     if isinstance(x, bytes):
@@ -63,6 +65,19 @@ def jsonable(x: Any) -> Any:
     if isinstance(x, (set, frozenset)):
         return sorted((jsonable(v) for v in x), key=repr)
     return repr(x)
+
+
+def fresh(s: str) -> str:
+    """An equal but NOT identical string object: texts reach a parser from files, sockets and JSON, never as the very object
+    a writer returned (a parser comparing with `is` would pass a round trip on the same object only)."""
+    return (s + '\0')[:-1]
+
+
+def unbig(x: Any) -> Any:
+    """Inverse of jsonable() for huge integers inside replay cases."""
+    if isinstance(x, dict) and '__bigint_hex__' in x:
+        return int(x['__bigint_hex__'], 16)
+    return x
 
 
 def h64(x: Any) -> int:
